@@ -50,6 +50,11 @@ Proof. exact empty_outcome. Qed.
 Theorem C13_dynamic_obstacles_wf : forall h w n ra own r, 4 <= h -> 4 <= w -> Leaf (reset_dynamic_obstacles h w n ra own) r ->
   r = Err ValueError \/ exists s, r = Ok s /\ wf_check (PDynamicObstacles h w n ra) s = true.
 Proof. exact dynamic_obstacles_wf. Qed.
+(* ---- `keydoor`, every shape with height >= 4 and width >= 5, every outcome: never an error; one LOCKED door in a full wall column that
+        divides the room, exactly one key of the door's colour strictly left of it, the agent left of it, the exit right of it ---- *)
+Theorem C13_keydoor_wf : forall h w own r, 4 <= h -> 5 <= w -> Leaf (reset_keydoor h w own) r ->
+  exists s, r = Ok s /\ wf_check (PKeydoor h w) s = true.
+Proof. exact keydoor_wf. Qed.
 (* ---- `teleport`, every shape >= 4x4, every outcome: never an error; one exit, exactly two telepods of one colour, agent on floor ---- *)
 Theorem C13_teleport_wf : forall h w own r, 4 <= h -> 4 <= w -> Leaf (reset_teleport h w own) r ->
   exists s, r = Ok s /\ wf_check (PTeleport h w) s = true.
